@@ -187,6 +187,29 @@ def run(ctx) -> None:
                "environment - a launch variable that the environment neither defines with that value nor imports" % short(filtered[0], 70),
                construct="expand_vars context = unfiltered %s" % ENV)
 
+    # chained own references: the launch environment may only be consulted for what the environment's own variables cannot resolve.
+    # A single own pass over the RAW values leaves '$C' in A for A: $B, B: $C - and os.path.expandvars then fills it from the launch
+    # environment although the environment defines C itself.
+    launch_steps = [c for c in source.calls_in(ewn, include_nested=True) if call_name(c) == "os.path.expandvars"]
+    for c in launch_steps:
+        own = [x for x in ast.walk(c) if isinstance(x, ast.Call) and x is not c and (last_attr(x) == "expand_vars" or call_name(x) == "expand_vars")]
+        # accepted repair shape: the own expansion (and this call) sits in a while / for-range loop, i.e. it is iterated to a fixpoint
+        iterated = any(isinstance(lp, ast.While) or (isinstance(lp, ast.For) and isinstance(lp.iter, ast.Call) and call_name(lp.iter) == "range")
+                       for lp in source.walk_own(ewn, include_nested=True) if isinstance(lp, (ast.While, ast.For)) and any(x is c for x in ast.walk(lp)))
+        # or the own pass is iterated on its own before this call: an expand_vars(.., ENV) inside such a loop that rebinds ENV
+        for lp in source.walk_own(ewn, include_nested=True):
+            if isinstance(lp, ast.While) or (isinstance(lp, ast.For) and isinstance(lp.iter, ast.Call) and call_name(lp.iter) == "range"):
+                if any(isinstance(x, ast.Call) and (last_attr(x) == "expand_vars" or call_name(x) == "expand_vars") for x in ast.walk(lp)) and any(
+                        isinstance(st, ast.Assign) and any(isinstance(t, ast.Name) and t.id == ENV for t in st.targets) for st in ast.walk(lp)):
+                    iterated = True
+        ok = iterated
+        ctx.ob("C17.R5-expansion-context", c, ok,
+               "own references are expanded to a fixpoint before the launch environment is consulted" if ok else
+               "os.path.expandvars is applied after a SINGLE own-variable pass over the raw values (%s): for A: $B, B: $C, C: own and a launch "
+               "variable C=launch, A becomes '$C' after the own pass and then 'launch' - a launch variable that the environment neither "
+               "imports nor leaves undefined appears in the result" % (short(own[0], 50) if own else "no own pass"),
+               construct="os.path.expandvars(<one own pass>) <- own references resolved first")
+
     # other helpers on the path do not read the launch environment (thorough: closure over self-method calls)
     seen: Set[str] = set()
     todo = ["environmentForNode"]
@@ -340,6 +363,42 @@ def run(ctx) -> None:
         k.arg == "platform" and isinstance(k.value, ast.Name) and k.value.id == "platform" for k in v.keywords) for v in pev)
     ctx.ob("C17.R3-layering", pev[0] if pev else ge, ok, "platform_env is read from the selected platform" if ok else
            "platform_env is not read from the selected platform")
+
+    # the sibling that flattens the environments of an instance (its output is what an Experiment runs with) layers the same way:
+    # per environment NAME the platform's variables go over the default platform's, a same-named environment is not replaced
+    inst = fl.func("FlowIRConcrete.instance")
+    ctx.analysed(inst)
+
+    def envs_call(v: ast.AST, default: bool) -> bool:
+        if not (isinstance(v, ast.IfExp) or isinstance(v, ast.Call)):
+            return False
+        calls = [c for c in ast.walk(v) if isinstance(c, ast.Call) and last_attr(c) == "get_environments"]
+        if not calls:
+            return False
+        is_def = any((dotted(a) or "").endswith("LabelDefault") for c in calls for a in list(c.args) + [k.value for k in c.keywords])
+        return is_def == default
+    DEFS = match.locals_where(inst, lambda v: envs_call(v, True))
+    PLATS = match.locals_where(inst, lambda v: envs_call(v, False))
+    ctx.require(bool(DEFS) and bool(PLATS), "anchor missing: the default and the platform environments read in FlowIRConcrete.instance")
+    aliases = set(DEFS)
+    for n_ in source.walk_own(inst):
+        if isinstance(n_, ast.Assign) and isinstance(n_.value, ast.Name) and n_.value.id in aliases:
+            aliases |= {t.id for t in n_.targets if isinstance(t, ast.Name)}
+    whole = [c for c in source.calls_in(inst) if last_attr(c) == "update" and isinstance(c.func.value, ast.Name) and c.func.value.id in aliases
+             and c.args and isinstance(c.args[0], ast.Name) and c.args[0].id in PLATS]
+    per_name = [lp for lp in source.walk_own(inst) if isinstance(lp, ast.For) and isinstance(lp.iter, ast.Name) and lp.iter.id in PLATS
+                and any(isinstance(c, ast.Call) and last_attr(c) == "update" and c.args and any(
+                    isinstance(x, ast.Subscript) and isinstance(x.value, ast.Name) and x.value.id in PLATS for x in ast.walk(c.args[0]))
+                    for c in ast.walk(lp))
+                and any(isinstance(x, (ast.Subscript, ast.Call)) and any(isinstance(y, ast.Name) and y.id in aliases for y in ast.walk(x))
+                        for x in ast.walk(lp))]
+    ok = not whole and bool(per_name)
+    ctx.ob("C17.R3-layering", whole[0] if whole else (per_name[0] if per_name else inst), ok,
+           "instance() layers each environment of the platform over the same-named default environment variable by variable" if ok else
+           "FlowIRConcrete.instance flattens the environments with %s: a same-named environment of the default platform is REPLACED, "
+           "not layered - default.myenv={FROM_DEFAULT, BOTH}, custom.myenv={FROM_CUSTOM, BOTH} gives the tasks of an Experiment "
+           "{BOTH, FROM_CUSTOM} while get_environment() gives all three" % (short(whole[0], 60) if whole else "no per-name merge"),
+           construct="instance(): per-environment layering of platform over default")
 
     # ---------------- R4 -------------------------------------------------------------------------------
     fd = fl.func("FlowIR.from_dict")
